@@ -99,6 +99,14 @@ def run(tier, seed, replay=None):
                 if nchunk > (12 if thorough else 2):
                     continue
             cases.append(concretise(rnd, i, ents, tdb=(i % 4 == 0)))
+        # target.db together with a db filter, in every mode: the filter speaks about SOURCE databases, the SELECT about the destination
+        for j, (mode, tdb, fkey, fval) in enumerate([(m, t, k, v) for m in ("sync", "restore", "restore-main") for t in (1, 3)
+                                                      for k, v in (("fdb_black", ["2"]), ("fdb_white", ["0", "2"]), ("fdb_black", ["1", "3"]))]):
+            cfg = {"mode": mode, "parallel": 2, "tdb": tdb, "key_exists": "none", "target": {"version": "5.0.7"}, "sched": "random", "big_threshold": 0, fkey: fval,
+                   "files": 2, "rdb_parallel": 2}
+            ents = [{"id": n + 1, "db": db, "key": "t%d:%d" % (db, n), "kind": rnd.choice(KINDS), "n": 3, "elem": 6, "enc": rnd.randrange(50), "type": -1}
+                    for n, db in enumerate([0, 1, 2, 2, 1, 3, 0, 3, 2])]
+            cases.append({"id": 20000 + j, "cfg": cfg, "pre": [], "entries": ents})
         rows = run_cases(sc, PID, verdict, cases, seed, "model-sequences", stats)
         # the as-built chunk race on the real code: chunked hash + rewrite + >= 2 workers, one connection starved
         race = []
